@@ -798,9 +798,24 @@ fn persistent_session_resumes_from_the_oldest_unacknowledged_message() {
                             send(&mut r, &c, outstanding);
                         }
                         send(&mut r, &p, vec![publish("s/t", 1, 52, "fresh", false)]);
-                        let live: Vec<String> = drain(&mut r, &c).iter().filter_map(|n| match n { RNotification::Forward(Forward { publish, .. }) => Some(String::from_utf8_lossy(&publish.payload).to_string()), _ => None }).collect();
+                        let live_notes = drain(&mut r, &c);
+                        let live_pkid: u16 = live_notes.iter().filter_map(|n| match n { RNotification::Forward(Forward { publish, .. }) => Some(publish.pkid), _ => None }).next().unwrap_or(0);
+                        let live: Vec<String> = live_notes.iter().filter_map(|n| match n { RNotification::Forward(Forward { publish, .. }) => Some(String::from_utf8_lossy(&publish.payload).to_string()), _ => None }).collect();
                         if live != vec!["fresh".to_string()] {
                             fail = Some(format!("input=[{}] detail=[after resume a new matching publish produced {:?}]", desc, live));
+                            break 'outer;
+                        }
+                        // the resumed subscription is a real subscription: it can be removed again, and then nothing more arrives
+                        send(&mut r, &c, vec![puback(live_pkid), unsubscribe(7, &["s/#"])]);
+                        let un = shown(&drain(&mut r, &c));
+                        if un != vec!["UNSUBACK(7)".to_string()] {
+                            fail = Some(format!("input=[{}] detail=[UNSUBSCRIBE after resume answered {:?}]", desc, un));
+                            break 'outer;
+                        }
+                        send(&mut r, &p, vec![publish("s/t", 1, 55, "after-unsubscribe", false)]);
+                        let after: Vec<String> = shown(&drain(&mut r, &c));
+                        if !after.is_empty() {
+                            fail = Some(format!("input=[{}] detail=[after unsubscribing the resumed subscription the client still received {:?}]", desc, after));
                             break 'outer;
                         }
                         // a later clean-session connect reports no session and has no subscriptions and no backlog
